@@ -1328,6 +1328,20 @@ def _assemble(repo, spec, rows=None, canary=None, opts=None):
                 p = '%s::%s' % (mod, it['name'])
                 if p in spec.ignore:
                     ed.insert(it['start'], '#[verifier::external]\n', prio=2); stats['external'] += 1
+                # R18: an elided reference lifetime in the type of a const / static item is 'static by the language rules; inside `verus!` it has to be
+                # written out (otherwise "missing lifetime specifier" stops the whole crate, and every property would be undecided)
+                txt = src[it['kw']:it['end']]
+                cm = re.match(r'(?:const|static)\s+(?:mut\s+)?\w+\s*:', txt)
+                if cm:
+                    d = 0; j = cm.end()
+                    while j < len(txt) and not (txt[j] == '=' and d == 0) and not (txt[j] == ';' and d == 0):
+                        if txt[j] in '([<': d += 1
+                        elif txt[j] in ')]>': d -= 1
+                        j += 1
+                    for x in re.finditer(r"&(?!\s*')", txt[cm.end():j]):
+                        if mask[it['kw'] + cm.end() + x.start()] == ord('c'):
+                            ed.replace(it['kw'] + cm.end() + x.start(), it['kw'] + cm.end() + x.end(), "&'static ")
+                            stats['R18_const_static_lifetime'] = stats.get('R18_const_static_lifetime', 0) + 1
                 continue
             if k == 'impl':
                 ty, tr = impl_type_name(it['header'])
